@@ -37,6 +37,8 @@ def render_item(item, sp=' ') -> str:
     t = item['t']
     if t == 'label':
         return item['name'] + ':'
+    if t == 'raw':
+        return item['text']       # verbatim text (fault injection only; the reference layout never sees it)
     if t == 'const':
         return f"{item['name']} {item.get('eq', '=')} " + exprs.render(item['e'], sp)
     if t == 'instr':
